@@ -87,6 +87,18 @@ class AccMod(treemodel.TreeMod):
         return super().intrinsic(I, callee, args, st, n)
 
 
+def symtext(t):
+    """how a component text reads back when its IDENT pieces are atoms: '1:2.0' -> '<1>:<2.0>'"""
+    return ":".join("<%s>" % p for p in t.split(":"))
+
+
+def symrel(r):
+    return {"name": symtext(r["name"]), "archqual": symtext(r["archqual"]) if r["archqual"] else None,
+            "version": (r["version"][0], symtext(r["version"][1])) if r["version"] else None,
+            "archs": [(n, symtext(a)) for n, a in r["archs"]] if r["archs"] is not None else None,
+            "profiles": [[(n, symtext(p)) for n, p in g] for g in r["profiles"]]}
+
+
 def lit(x):
     return symstr.show(x) if isinstance(x, tuple) and x and x[0] in ("sstr", "str") else None
 
@@ -242,7 +254,10 @@ def run(tier):
         else:
             styles = STYLES if tier == "thorough" else [STYLES[fi % len(STYLES)], STYLES[(fi // 2 + 3) % len(STYLES)]]
         for style in styles:
-            toks = relspec.field_tokens(entries, style, trailing, svars)
+            # component texts are symbolic atoms (arbitrary IDENT strings) except in every fourth field, which keeps
+            # concrete representatives
+            sym = (fi % 4 != 1)
+            toks = relspec.field_tokens(entries, style, trailing, svars, sym=sym)
             text = db.text_of_tokens(toks)
             label = "field %d (%s): %r" % (fi, style, text)
             n += 1
@@ -252,7 +267,7 @@ def run(tier):
             except relspec.NotWellFormed as e:
                 C.ob("C10/generator", label, False, "generator/reference mismatch: %s" % e)
                 continue
-            want_entries = [e for e in entries if e]
+            want_entries = [[symrel(r) if sym else r for r in e] for e in entries if e]
             C.ob("C10/generator", label, ref_entries == want_entries and ref_svars == list(svars), "reference reader gives %s" % (ref_entries,))
             rels, errs, st, mod = db.parse_relations(F, toks, allow_substvar=bool(svars))
             if rels is None:
@@ -301,10 +316,11 @@ def run(tier):
                 C.ob("C10/lossless-substvars", label, got_sv == ["${%s}" % s for s in svars], "substvars() reports %s, written %s" % (got_sv, list(svars)), F.fn(PFX + "Relations::substvars")["sp"])
             # lossy reader, relation by relation (its field reader splits the text on ',' and '|')
             if not svars:
-                for e in want_entries:
-                    for rl in e:
+                for e0 in [e for e in entries if e]:
+                    for rl0 in e0:
+                        rl = symrel(rl0) if sym else rl0
                         for rstyle in ((style,) if style != "newlines" else ("canonical",)):
-                            rtoks = relspec.rel_tokens(rl, rstyle)
+                            rtoks = relspec.rel_tokens(rl0, rstyle, sym)
                             lmod = lr.Mod(F, db.seq_dfa([k for k, t in rtoks]), lit_text=lit_text, vec_cap=8)
                             lmod.tokens = rtoks
                             LI = tokcursor.LoopProgressInterp(F, lmod, max_depth=16)
